@@ -32,10 +32,13 @@ Definition check_bins_q (c : list Q * list (option Q * list (option Q))) : bool 
 Definition check_how (c : list (Z * Z * Z)) : bool :=
   forallb (fun r => let '(d, h, k) := r in Z.eqb (hour_of_week d h) k) c.
 
-(* feature processors: occupied / unoccupied endpoints, then (other columns present, occupancy, temperature, occupied bins, unoccupied bins) *)
+(* feature processors: occupied / unoccupied keep-flags over the candidate endpoints (the boolean frames handed to the
+   processors), then (other columns present, occupancy, temperature, occupied bins, unoccupied bins) *)
 Definition check_occupancy
-  (c : list float * list float * list (bool * option bool * option float * list (option float) * list (option float))) : bool :=
-  let '(eo, eu, rows) := c in
+  (c : list bool * list bool * list (bool * option bool * option float * list (option float) * list (option float))) : bool :=
+  let '(fo, fu, rows) := c in
+  let eo := endpoints_of_flags_f fo in
+  let eu := endpoints_of_flags_f fu in
   forallb (fun r => let '(others, occ, T, o, u) := r in
                     let ou := feature_row FOps others occ T eo eu in
                     list_eqb (opt_eqb feqb) (fst ou) o && list_eqb (opt_eqb feqb) (snd ou) u) rows.
@@ -44,3 +47,13 @@ Definition check_occupancy
 Definition check_prediction (c : string * Z * option string) : bool :=
   let '(fit_type, m, observed) := c in
   opt_eqb String.eqb (prediction_segment fit_type m) observed.
+
+(* the same when the index covers only the local months `present` and the model holds only the segment models `fitted` *)
+Definition check_prediction_on (c : list Z * list string * string * Z * option string) : bool :=
+  let '(present, fitted, fit_type, m, observed) := c in
+  opt_eqb String.eqb (prediction_segment_on present fitted fit_type m) observed.
+
+(* HourlyModel.fit: the fitted segment whose (n, n') are filed under calendar month m in _autocorr_unc_vars *)
+Definition check_unc (c : list string * Z * option string) : bool :=
+  let '(names, m, observed) := c in
+  opt_eqb String.eqb (unc_segment names m) observed.
